@@ -24,6 +24,28 @@ class Engine(Interp, InterpExpr, InterpComp, InterpStmt, InterpCall, InterpBuilt
         self.old_heap = None
         self.effects_base = []
         self.call_stack = []
+        self.entry_vars = {}
+        self.clock = z3.Const('clock@0', R)
+
+    def eval_term(self, con, clause, fr, extra):
+        from .loops import _bind
+        b = _bind(self, fr, extra)
+        names = [a.arg for a in clause.args.args]
+        sub = Frame(None, con.module, {n: b[n] for n in names}, None, None)
+        saved = self.mode
+        self.mode = SPEC
+        try:
+            try:
+                self.exec_block(clause.body, sub)
+            except ReturnEx as r:
+                return self.num_term(r.value, 0)
+        finally:
+            self.mode = saved
+        raise Unsupported('decreases clause does not return')
+
+    def bi_clock(self, args, kw, line):
+        """ghost: lower bound of every later time.monotonic() result"""
+        return SV(self.clock, REAL)
 
     # ------------------------------------------------------------------ symbolic inputs
     def make_symbolic(self, name, ty):
@@ -206,6 +228,9 @@ class Engine(Interp, InterpExpr, InterpComp, InterpStmt, InterpCall, InterpBuilt
         rty = self.ts.ann_to_type(ast.parse(con.returns, mode='eval').body, 'ttypes') if con.returns else NONE
         result = self.fresh_value('ext_' + con.target.split('.')[-1], rty)
         bindings['result'] = result
+        if con.target == 'time.monotonic':
+            self.run.assume(result.t >= self.clock)
+            self.clock = result.t
         for cl in con.post:
             self.run.assume(self.eval_clause(cl, con.module, bindings))
         return result
@@ -237,7 +262,9 @@ def load_contract_module(ct, reg, path, modname):
                     target = ast.literal_eval(d.args[0])
                     kw = {k.arg: ast.literal_eval(k.value) for k in d.keywords}
                     con = Contract(target, kw.get('props', []), node, modname, d.func.id)
-                    if d.func.id == 'contract':
+                    if d.func.id == 'contract' and con.attrs.get('loops_only'):
+                        reg.loop_contracts[target] = con
+                    elif d.func.id == 'contract':
                         reg.contracts[target] = con
                     else:
                         reg.ext_contracts[target] = con
@@ -368,6 +395,8 @@ def _run_path(eng, world, con, fi, variant, res, runner):
             # force a refuted record
             runner.obligations[(f'vac:precondition-satisfiable/{eng.cur_fn}', runner.prefix())].verdict = 'refuted'
     eng.old_heap = eng.heap.snapshot()
+    eng.entry_vars = dict(vars_)
+    eng.clock0 = eng.clock
     eng.effects_base = list(eng.effects)
     bindings['old'] = OldNS(vars_, eng.old_heap)
     mods = eng.eval_modifies(con, bindings)
